@@ -384,7 +384,7 @@ func TestC09GroupSEC1(t *testing.T) {
 			if f.name == "group.P521" {
 				nq = 500
 			}
-			vlib.Check(t, vlib.N(nq, 6000), func(t *rapid.T) {
+			vlib.Check(t, vlib.N(nq, 4000), func(t *rapid.T) {
 				kind := rapid.SampledFrom(secKinds).Draw(t, "kind")
 				b, valid, orig := genSEC(t, f, kind)
 				checkSEC(t, f, f.name+".Element.UnmarshalBinary", f.name+".Element.UnmarshalBinary", b, kind, valid, orig,
@@ -545,7 +545,7 @@ func TestC09Ristretto255(t *testing.T) {
 	defer vlib.Done()
 	selftest(t)
 	t.Run("group.Ristretto255", func(t *testing.T) {
-		vlib.Check(t, vlib.N(900, 8000), func(t *rapid.T) {
+		vlib.Check(t, vlib.N(900, 6000), func(t *rapid.T) {
 			kind := rapid.SampledFrom(r255Kinds).Draw(t, "kind")
 			b, valid, orig := genR255(t, kind)
 			checkR255(t, "group.Ristretto255.Element.UnmarshalBinary", "group.Ristretto255.Element.UnmarshalBinary", b, kind, valid, orig,
